@@ -7,10 +7,12 @@ PROPS = "props/C15.v"
 N_QUICK = 1500
 N_THOROUGH = 30000
 RULE = ("operation sequences (1-14 ops) of set/add/delete on an empty MafRecord over 5 names, "
-        "indexes -2..6, explicit/implicit column_index, the four key forms plus None/float keys; "
-        "three streams: mostly-valid, index-clash heavy, adversarial; a case is non-trivial when at "
+        "indexes -2..6, explicit/implicit column_index, the four key forms plus None/float keys; operands are new "
+        "column objects, objects created earlier in the history, or the object stored in a slot (aliasing); "
+        "four streams: mostly-valid, index-clash heavy, adversarial, aliasing-heavy; a case is non-trivial when at "
         "least two operations succeed and the record is non-empty at some point; distinct by hash of the op list")
-ASSUMPTIONS = ["each operation uses a fresh column object (no aliasing between the caller's objects and stored columns)",
+ASSUMPTIONS = ["column objects are edited only through the record's own operations (the caller re-uses objects - "
+               "modelled - but does not assign to their attributes behind the record's back)",
                "column payloads are integers (their text has no TAB)"]
 
 EXC = {"KeyError": 1, "ValueError": 2, "TypeError": 3, "IndexError": 4, "AssertionError": 5}
@@ -46,19 +48,44 @@ def _key(rng, col, stream):
     return [rng.choice(["none", "other"])] if stream == "adv" else ["str", name]
 
 
+def _operand(rng, stream, made):
+    """a column operand: literal (new object), ["ref", h] (h-th object made so far), ["slot", j]"""
+    p = {"alias": 0.5, "adv": 0.15, "clash": 0.1, "valid": 0.05}[stream]
+    if rng.random() < p:
+        if made[0] and rng.random() < 0.6:
+            return ["ref", rng.randrange(made[0])]
+        return ["slot", rng.randint(0, 5)]
+    made[0] += 1
+    return _col(rng, "clash" if stream == "alias" else stream)
+
+
 def _gen_one(rng):
-    stream = rng.choice(["valid", "valid", "clash", "adv"])
+    stream = rng.choice(["valid", "valid", "clash", "adv", "alias"])
     ops = []
+    made = [0]
     for _ in range(rng.randint(1, 14)):
         r = rng.random()
         if r < 0.45:
-            c = _col(rng, stream)
-            ops.append(["set", _key(rng, c, stream), c])
+            c = _operand(rng, stream, made)
+            lit = c if len(c) == 3 else [rng.choice(NAMES), rng.choice([None, 0, 1, 2]), 0]
+            k = _key(rng, lit, "clash" if stream == "alias" else stream)
+            if k[0] == "col":
+                if stream == "alias" and rng.random() < 0.5:
+                    k = ["col", c if len(c) == 2 else ["slot", rng.randint(0, 4)]]
+                else:
+                    made[0] += 1
+            ops.append(["set", k, c])
         elif r < 0.65:
-            ops.append(["add", _col(rng, stream)])
+            ops.append(["add", _operand(rng, stream, made)])
         else:
             c = [rng.choice(NAMES), None, 0]
-            ops.append(["del", _key(rng, c, stream)])
+            k = _key(rng, c, "clash" if stream == "alias" else stream)
+            if k[0] == "col":
+                if stream == "alias" and rng.random() < 0.6:
+                    k = ["col", ["slot", rng.randint(0, 5)] if rng.random() < 0.5 or not made[0] else ["ref", rng.randrange(made[0])]]
+                else:
+                    made[0] += 1
+            ops.append(["del", k])
     return {"stream": stream, "ops": ops}
 
 
@@ -73,6 +100,12 @@ def corpus():
         {"stream": "corpus", "ops": [["set", ["str", "A"], ["A", 0, 1]], ["set", ["str", "B"], ["B", -1, 1]]]},
         {"stream": "corpus", "ops": [["add", ["A", 3, 1]], ["add", ["B", None, 2]], ["del", ["int", 4]], ["del", ["str", "A"]]]},
         {"stream": "corpus", "ops": [["add", ["A", 1, 1]], ["set", ["str", "B"], ["B", 1, 2]], ["del", ["int", 0]]]},
+        # aliasing: the stored object addressed by another integer; an object re-used after a failing set
+        {"stream": "corpus", "ops": [["add", ["A", None, 1]], ["add", ["B", None, 2]], ["set", ["int", 5], ["slot", 0]]]},
+        {"stream": "corpus", "ops": [["add", ["A", None, 1]], ["set", ["int", 0], ["B", None, 2]], ["add", ["ref", 1]],
+                                     ["set", ["col", ["ref", 0]], ["slot", 0]], ["del", ["col", ["slot", 0]]], ["add", ["ref", 0]]]},
+        {"stream": "corpus", "ops": [["set", ["int", 3], ["A", None, 1]], ["del", ["int", 3]], ["set", ["int", 1], ["ref", 0]],
+                                     ["set", ["int", 3], ["ref", 0]]]},
     ]
 
 
@@ -84,6 +117,10 @@ def shrink(case):
 
 # ------------------------------------------------------------ model wire
 def _mcol(c):
+    if c[0] == "ref" and len(c) == 2:
+        return [9, c[1]]
+    if c[0] == "slot" and len(c) == 2:
+        return [8, c[1]]
     return [S(c[0]), OPT(c[1]), c[2]]
 
 
@@ -117,8 +154,9 @@ def _dcol(s):
 def from_model(case, sx):
     out = []
     for outcome, obs in sx:
-        ln, names, d, lst = obs
+        ln, names, d, lst, pool = obs
         out.append({
+            "pool": [_dcol(x) for x in pool],
             "exc": (outcome[0] if outcome else None),
             "len": ln,
             "names": [U(x[0]) if x else None for x in names],
@@ -146,8 +184,21 @@ def run_impl(case):
     from maflib.record import MafRecord
     from maflib.column import MafColumnRecord
 
+    pool = []
+
     def mk(c):
-        return MafColumnRecord(key=c[0], value=c[2], column_index=c[1])
+        if len(c) == 2 and c[0] == "ref":
+            if pool:
+                return pool[c[1] % len(pool)]
+            c = ["A", None, 0]
+        elif len(c) == 2 and c[0] == "slot":
+            lst = getattr(r, "_MafRecord__columns_list")
+            if 0 <= c[1] < len(lst) and lst[c[1]] is not None:
+                return lst[c[1]]
+            c = ["A", None, 0]
+        o = MafColumnRecord(key=c[0], value=c[2], column_index=c[1])
+        pool.append(o)
+        return o
 
     def key(k):
         t = k[0]
@@ -162,7 +213,9 @@ def run_impl(case):
         exc = None
         try:
             if op[0] == "set":
-                r[key(op[1])] = mk(op[2])
+                kk = key(op[1])          # objects are created key first, then operand (as in the model)
+                cc = mk(op[2])
+                r[kk] = cc
             elif op[0] == "add":
                 r.add(mk(op[1]))
             else:
@@ -172,6 +225,7 @@ def run_impl(case):
         d = getattr(r, "_MafRecord__columns_dict")
         lst = getattr(r, "_MafRecord__columns_list")
         steps.append({
+            "pool": [[c.key, c.column_index, c.value] for c in pool],
             "exc": exc, "len": len(r), "names": list(r),
             "dict": [[k, [c.key, c.column_index, c.value]] for k, c in d.items()],
             "list": [([c.key, c.column_index, c.value] if c is not None else None) for c in lst],
